@@ -196,6 +196,18 @@ chk("C20", "model_checking",
     "count options recognised by their documentation text; configurations with a count option above nl_max are outside the proviso (status 78 is skipped)",
     "bounded-exhaustive blank-line-layout x option-product enumeration with lexer-masked run-length oracle", "3/C20")
 
+chk("C07", "model_checking",
+    "Stateless bounded-exhaustive exploration on the real binary: 22 programs (skeletons of all nine languages, preprocessor and declaration "
+    "units) x a region before EVERY line (and at the end of the file, terminated and unterminated) x 19 region contents (tidy and mis-indented "
+    "code, non-code, ')))', lone braces, tabs and trailing blanks, whitespace-only lines, blank-line runs, non-ASCII bytes, unterminated "
+    "comment / string, preprocessor lines, marker look-alikes, a foreign end marker, column-1 comments, backslash continuations, long "
+    "lines, labels) x 6 marker kinds (block / line default markers, custom, regex, #pragma asm, #asm) x {LF, CRLF} x {defaults, shipped "
+    "profiles with their mod_ options, kitchen-sink profiles}; plus every single deviation of every option the run reads (incl. mod_, "
+    "blank-line, alignment and lexer-altering options) on a subset of positions. Oracle: fidelity (the region's lines equal the input's, "
+    "whitespace-only lines may be emptied) and opacity (output outside the region identical for all contents).",
+    "marker lines belong to the formatted part; utf8_* transcoding left to C09; known findings listed by (clause, option family or profile, marker class)",
+    "bounded-exhaustive region-position x content x marker x configuration enumeration with fidelity and opacity oracles", "3/C07")
+
 
 def main():
     commits = subprocess.run(["git", "-C", "/repo", "log", "--format=%h %s"], stdout=subprocess.PIPE, text=True).stdout.splitlines()
